@@ -35,7 +35,7 @@ def consts_of(dtype: str) -> List[Any]:
 
 
 DTYPES = ["int64", "float64", "timedelta64[ns]", "datetime64[ns]"]
-KINDS = ["series", "frame", "index", "regex", "framecheck", "series_idx", "mi_unique"]
+KINDS = ["series", "frame", "index", "regex", "framecheck", "series_idx", "mi_unique", "series_custom"]
 
 
 def rank(v: Any, consts: List[Any]) -> int:
@@ -141,7 +141,7 @@ def _one(job):
         consts = None
         cont = {"nullable": False, "unique": False, "size": 2}
     else:
-        dtype = DTYPES[(idx // 7) % 4] if tier == "quick" else DTYPES[idx % 4]
+        dtype = DTYPES[(idx // 8) % 4] if tier == "quick" else DTYPES[idx % 4]
         consts = consts_of(dtype)
         checks = [mk_check(c, consts, pa) for c in vec["chain"]]
         cont = vec["cont"]
@@ -155,6 +155,14 @@ def _one(job):
             schema = pa.DataFrameSchema({"a": pa.Column(dtype, checks=checks, nullable=cont["nullable"], unique=cont["unique"]),
                                          "b": pa.Column(int)}, index=pa.Index(int, unique=True, name="i"))
             get = lambda d: d["a"]  # noqa: E731
+        elif kind == "series_custom":
+            # a nullable series with a custom whole-series check that has no strategy of its own (the strategy falls
+            # back to filtering): "every element is present".  The draw must then contain no null although the schema
+            # is nullable - the specification judges it as a non-nullable draw.
+            n_ = int(cont["size"])
+            schema = pa.SeriesSchema(dtype, checks=checks + [pa.Check(lambda s, n_=n_: int(s.count()) >= n_, name="all_present")],
+                                     nullable=True, unique=cont["unique"], name="a")
+            get = lambda d: d  # noqa: E731
         elif kind == "series_idx":
             # a SeriesSchema that also constrains its index
             schema = pa.SeriesSchema(dtype, checks=checks, nullable=cont["nullable"], unique=cont["unique"], name="a",
@@ -180,7 +188,7 @@ def _one(job):
                                                           regex=True)})
             kw = {"n_regex_columns": 2}
             get = lambda d: d[d.columns[0]]  # noqa: E731
-        nullable_here = cont["nullable"] and kind != "index"
+        nullable_here = cont["nullable"] and kind not in ("index", "series_custom")
         outcome, draws, detail = draw(schema, cont["size"], n, seed, cap, **kw)
         ev = {"sid": idx, "kind": kind, "dtype": str(dtype), "outcome": outcome, "detail": detail, "draws": []}
         for d in draws:
@@ -239,11 +247,11 @@ def main(argv: List[str]) -> int:
         if v["kind"] == "strategy_str":
             kinds = [["series", "frame"][i % 2]]
         elif tier == "quick":
-            kinds = [KINDS[i % 7]]
+            kinds = [KINDS[i % 8]]
         elif len(v.get("chain", [])) >= 3:
-            kinds = [KINDS[i % 7]]
+            kinds = [KINDS[i % 8]]
         else:
-            kinds = [KINDS[i % 7], KINDS[(i + 3) % 7]]
+            kinds = [KINDS[i % 8], KINDS[(i + 3) % 8]]
         jobs += [(i, v, tier, seed, k) for k in kinds]
     ctx = mp.get_context("fork")
     nproc = int(os.environ.get("VERIF_NPROC", "16"))
